@@ -314,6 +314,9 @@ def inline_helper(ex, ev, node, fname):
             fn = n
     if fn is None or INLINE_DEPTH[0] >= 3:
         return None
+    if any(isinstance(x, (ast.For, ast.While, ast.ListComp, ast.SetComp, ast.DictComp, ast.GeneratorExp, ast.Lambda, ast.Try, ast.With,
+                          ast.AugAssign, ast.FunctionDef)) for b_ in fn.body for x in ast.walk(b_)):
+        return None  # not straight-line: needs a contract of its own
     A = fn.args
     if A.vararg or A.kwarg:
         return None
@@ -341,6 +344,8 @@ def inline_helper(ex, ev, node, fname):
         INLINE_DEPTH[0] += 1
         try:
             r = _inline_block(ex, ev, list(fn.body), [])
+        except (KeyError, Unsupported):
+            r = None  # something the in-place execution does not model: treated as a call without contract
         finally:
             INLINE_DEPTH[0] -= 1
         if r is not None:
